@@ -8,7 +8,7 @@
 From Coq Require Import List Bool Arith ZArith.
 From Verif Require Import Base.Effects.
 Import ListNotations.
-Open Scope Z_scope.
+Local Open Scope Z_scope.
 
 Definition name := nat.                      (* pods and nodes are numbered by the harness *)
 
